@@ -67,6 +67,11 @@ def enumerate_trees(env, max_nodes):
         else:
             V[1].append(('var', name))
             S[1].extend(('idx', name, i) for i in range(ln))
+    if vlen is None and len(env) == 1:
+        # a scalar point meets a constant real list (a single-precision tensor on the torch backend): the only vector leaf
+        # is the list scaled by the point, ([0.5 2.0]*x), counted as one node
+        V[1].append(('cvx', env[0][0]))
+        vlen = len(dual.CVEC)
     for k in range(2, max_nodes + 1):
         s, v = [], []
         for fam, out in ((S, s), (V, v)):
@@ -94,14 +99,15 @@ def enumerate_trees(env, max_nodes):
 
 def scalar_trees(env, max_nodes):
     S, _ = enumerate_trees(env, max_nodes)
-    return [t for k in range(1, max_nodes + 1) for t in S[k]]
+    # a tree built from constants alone (possible since the constant-list leaf) is no function of the point
+    return [t for k in range(1, max_nodes + 1) for t in S[k] if params_used(t)]
 
 
 def vector_trees(env, max_nodes):
     """Vector-valued functions: every vector-typed tree with <= max_nodes nodes that is not a bare parameter, plus the
     joins (A),(B) of two scalar trees within the same bound."""
     S, V = enumerate_trees(env, max_nodes)
-    out = [t for k in range(2, max_nodes + 1) for t in V[k]]
+    out = [t for k in range(2, max_nodes + 1) for t in V[k] if params_used(t)]
     # functions whose result is the parameter itself or a structural view of a small vector tree (identity, reverse, drop,
     # take): no arithmetic produces a fresh array, so the result may alias the point being perturbed
     out.extend(V[1])
@@ -115,7 +121,7 @@ def vector_trees(env, max_nodes):
 
 def params_used(t, acc=None):
     acc = set() if acc is None else acc
-    if t[0] in ('var', 'idx'):
+    if t[0] in ('var', 'idx', 'cvx'):
         acc.add(t[1])
     else:
         for e in t[1:]:
@@ -151,6 +157,8 @@ def kl(t):
         return '(%s^%s)' % (kl(t[2]), num(t[1]))
     if k == 'bin':
         return '(%s%s%s)' % (kl(t[2]), t[1], kl(t[3]))
+    if k == 'cvx':
+        return '([' + ' '.join(num(c) for c in dual.CVEC) + ']*' + t[1] + ')'
     if k == 'bpow':
         return '(%s^%s)' % (kl(t[1]), kl(t[2]))
     if k == 'cexp':
